@@ -114,7 +114,7 @@ int main(void) {
         } else if (sscanf(line, "rblk %1023s %lld %lld %lld", a, &v[0], &v[1], &v[2]) == 4) {
             double id = child(a, &err);
             memset(buf, 0xA5, (size_t)v[2]);
-            if (err == -1) ADF_Read_Block_Data(id, (cgsize_t)v[0], (cgsize_t)v[1], (char *)buf, &err);
+            if (err == -1) ADF_Read_Block_Data(id, (cgsize_t)v[0], (cgsize_t)v[1], NULL, (char *)buf, &err);
             printf("r err=%d ", err); puthex(buf, (size_t)v[2]); putchar('\n');
         } else if (sscanf(line, "rstr %1023s %lld %lld %lld %lld %lld %lld %lld %lld", a, &v[0], &v[1], &v[2], &v[3],
                           &v[4], &v[5], &v[6], &v[7]) == 9) {
